@@ -111,11 +111,9 @@ func checkC07(cx *Ctx, r *Report) {
 				}
 			}
 		}
+		lookupInHelper := false
 		for _, cand := range cands {
 			st := cand.st
-			{
-				_ = st
-			}
 			if cs, ok := constString(st.Val); !ok || "const:"+cs != cDeflate {
 				continue
 			}
@@ -126,6 +124,7 @@ func checkC07(cx *Ctx, r *Report) {
 			all := len(pts) > 0
 			for _, p := range pts {
 				encEmpty, fromQuery := false, false
+				_ = lookupInHelper
 				for _, a := range p.Atoms {
 					if a.Op == "EMPTY" && !a.Neg && strings.HasSuffix(a.A, ".Encoding") {
 						encEmpty = true
@@ -138,8 +137,12 @@ func checkC07(cx *Ctx, r *Report) {
 					if a.Op == "EQ" && !a.Neg && (a.A == cRedirect || a.B == cRedirect) {
 						fromQuery = true
 					}
-					if a.Op == "EQ" && !a.Neg && (a.A == cRedirect || a.B == cRedirect) {
-						fromQuery = true
+					// the lookup in a predicate of its own: `hasQueryParameter(r, "SAMLRequest")`
+					if strings.HasPrefix(a.Op, "CALL:") && !a.Neg {
+						if c, isC := stripNot(a.Cond).(*ssa.Call); isC && cx.fromSAMLRequestQuery(c, 0) {
+							fromQuery = true
+							lookupInHelper = true
+						}
 					}
 				}
 				if !encEmpty || !fromQuery {
@@ -162,7 +165,7 @@ func checkC07(cx *Ctx, r *Report) {
 			}
 		}
 		// the query lookup is for SAMLRequest
-		hasLookup := false
+		hasLookup := lookupInHelper
 		for g := range w.scopeOf(fn) {
 			for _, b := range g.Blocks {
 				for _, in := range b.Instrs {
@@ -338,15 +341,17 @@ func checkC07(cx *Ctx, r *Report) {
 			}
 			pts, _ := fx.atomPathsTo(call.Block(), 4096)
 			for _, p := range pts {
-				for _, a := range p.Atoms {
-					if a.Neg || !strings.HasSuffix(a.A+"|"+a.B, ".Use") && !strings.Contains(a.A+"|"+a.B, ".Use|") {
-						continue
-					}
-					if a.Op == "EMPTY" {
-						sawEmpty = true
-					}
-					if a.Op == "EQ" && (a.A == "const:signing" || a.B == "const:signing") {
-						sawSigning = true
+				for _, atoms := range fx.altExpansions(p.Atoms, 16) {
+					for _, a := range atoms {
+						if a.Neg || !strings.HasSuffix(a.A+"|"+a.B, ".Use") && !strings.Contains(a.A+"|"+a.B, ".Use|") && !strings.HasSuffix(a.TA+"|"+a.TB, ".Use") && !strings.Contains(a.TA+"|"+a.TB, ".Use|") {
+							continue
+						}
+						if a.Op == "EMPTY" {
+							sawEmpty = true
+						}
+						if a.Op == "EQ" && (a.A == "const:signing" || a.B == "const:signing") {
+							sawSigning = true
+						}
 					}
 				}
 			}
@@ -965,13 +970,22 @@ func mentionsTreeLayout(v ssa.Value, depth int) bool {
 // fromSAMLRequestQuery: v is true exactly when SAMLRequest is a key of the URL query: the comma-ok of the lookup, or
 // the result of a module function that returns nothing else.
 func (cx *Ctx) fromSAMLRequestQuery(v ssa.Value, depth int) bool {
+	return cx.fromSAMLRequestQueryB(v, depth, nil)
+}
+
+// (bind: the arguments standing for the parameters of the helper being read - `hasQueryParameter(r, "SAMLRequest")`)
+func (cx *Ctx) fromSAMLRequestQueryB(v ssa.Value, depth int, bind map[*ssa.Parameter]ssa.Value) bool {
 	if depth > 3 {
 		return false
 	}
 	switch x := v.(type) {
 	case *ssa.Extract:
 		if lk, ok := x.Tuple.(*ssa.Lookup); ok && x.Index == 1 {
-			if k, ok := constString(lk.Index); ok && k == "SAMLRequest" {
+			idx := lk.Index
+			if p, isP := idx.(*ssa.Parameter); isP && bind[p] != nil {
+				idx = bind[p]
+			}
+			if k, ok := constString(idx); ok && k == "SAMLRequest" {
 				return strings.HasSuffix(calleeNameOfValue(lk.X), "(*net/url.URL).Query")
 			}
 		}
@@ -984,8 +998,18 @@ func (cx *Ctx) fromSAMLRequestQuery(v ssa.Value, depth int) bool {
 		if len(rets) == 0 {
 			return false
 		}
+		nb := map[*ssa.Parameter]ssa.Value{}
+		for i, p := range g.Params {
+			if i < len(x.Call.Args) {
+				a := x.Call.Args[i]
+				if q, isP := a.(*ssa.Parameter); isP && bind[q] != nil {
+					a = bind[q]
+				}
+				nb[p] = a
+			}
+		}
 		for _, ret := range rets {
-			if len(ret.Results) != 1 || !cx.fromSAMLRequestQuery(ret.Results[0], depth+1) {
+			if len(ret.Results) != 1 || !cx.fromSAMLRequestQueryB(ret.Results[0], depth+1, nb) {
 				return false
 			}
 		}
